@@ -710,6 +710,10 @@ def run(ctx):
     shared_a10(ctx)
     rank_decode(ctx)
     ddr4_act_mux(ctx)
+    ob10 = ctx.ob("C02.10", "an ACTIVATE only reaches a bank whose precharge has completed: every site where a precharge takes effect (explicit, auto-precharge release, "
+                            "refresh grant) waits for the write-recovery and row-active gates, and ACT waits for the row-cycle gate (the gate discipline of C03.2 - a precharge "
+                            "the device has not finished leaves the bank open when the next ACTIVATE arrives)", 3)
+    share(ctx, ob10, "C03", ("C03.2",))
     ctx.assume("the refresher keeps cmd.valid (refresh_req) high until its sequence is done (C03.6) and precharge-all is issued before "
                "REF/ZQCS (C04.4), so leaving the refresh-grant state implies the bank is precharged")
 
